@@ -131,6 +131,10 @@ def _has_quantifier(e):
     return False
 
 
+class FailFast(Exception):
+    pass
+
+
 class Registry(object):
     """Collects named obligations of one check run."""
 
@@ -141,6 +145,8 @@ class Registry(object):
         self.notes = []
         self.unmodelled = []      # (func, what) -- constructs havocked by the executor
         self.joint = True         # clauses of one path are first tried as one conjunction
+        self.fail_fast = None     # (n_refuted, n_undischarged): stop generating obligations once that many have failed (set by jobs that
+        #                           expect none to fail; a verdict needs one named failing obligation, not all of them)
 
     def unique(self, name):
         base = name
@@ -150,6 +156,13 @@ class Registry(object):
             k += 1
         self.names.add(name)
         return name
+
+    def _check_fail_fast(self):
+        if self.fail_fast:
+            bad = [o for o in self.obligations if not o.discharged and o.kind != "cover"]
+            if sum(1 for o in bad if o.result == "sat") >= self.fail_fast[0] or len(bad) >= self.fail_fast[1]:
+                raise FailFast("stopped after %d refuted / %d undischarged obligations (fail-fast; the remaining obligations of this job were not generated)" % (
+                    sum(1 for o in bad if o.result == "sat"), len(bad)))
 
     def _trace(self, ob):
         if os.environ.get("VERIF_TRACE"):
@@ -172,6 +185,8 @@ class Registry(object):
             ob.smt2 = s.to_smt2()
         self._trace(ob)
         self.obligations.append(ob)
+        if not ob.discharged:
+            self._check_fail_fast()
         return ob
 
     def prove_all(self, items, func, pc):
